@@ -190,9 +190,10 @@ def learn_table(agg):
 def gen_term(r):
     k = r.random()
     if k < 0.3:
-        return ("int", r.choice([0, 1, 7, 42, -3, -10, 1000]))
+        # (also integers a 64-bit float cannot hold, and decimals with many digits: literal values are what was written)
+        return ("int", r.choice([0, 1, 7, 42, -3, -10, 1000, 9007199254740993, 12345678901234567, -9223372036854775807, 4111111111111111]))
     if k < 0.45:
-        return ("flt", r.choice([0.5, 3.25, -2.5, 10.0]))
+        return ("flt", r.choice([0.5, 3.25, -2.5, 10.0, 0.1, 1234567.125, -0.001]))
     if k < 0.85:
         return ("str", r.choice(["abc", "a b", "x|y|z", "", " pad ", "it's", "1,2", "#h", "@v", "a == b", "x -> y", "(q)", "a~b", "~hi~ there", "x ~ y", "[br", "q]"]))
     return ("regex", r.choice(["/a.b/", "/^[0-9]+$/", "/x|y/", "/\\d{2}/", "/^~[a-z]+~$/", "/q~r/"]))
